@@ -683,11 +683,8 @@ func (s *Store) RealCmp(op string, a, b *Term) *Term {
 // provably exact: an unconstrained real (any behaviour of the float operation
 // is admitted). Identical applications share the variable.
 func (s *Store) InexactVar(op string, args ...*Term) *Term {
-	k := "ix_" + op
-	for _, a := range args {
-		k += "_" + strconv.Itoa(a.id)
-	}
-	t := s.Var(k, SReal)
+	// an Ackermannised application: equal arguments give equal results
+	t := s.mk(&Term{Op: "ufvar", Name: "ix_" + op, S: SReal, Args: args})
 	if t.ri == nil {
 		t.ri = &realInfo{exact: false}
 	}
